@@ -33,6 +33,17 @@ pub enum EnumRecv {
     Rec { a: u8 },
 }
 
+/// a receiver that declares its own absent-value
+#[derive(Debug, FromMeta, PartialEq)]
+#[darling(from_none = none_recv)]
+pub struct NoneRecv {
+    a: u8,
+}
+
+fn none_recv() -> Option<NoneRecv> {
+    Some(NoneRecv { a: 211 })
+}
+
 #[derive(Clone, Copy, Debug, PartialEq, Eq, Hash)]
 pub enum W {
     Opt,
@@ -56,6 +67,8 @@ pub enum Out {
 pub struct Seen {
     pub spans: Vec<R>,
     pub originals: Vec<String>,
+    /// keep `Some(..)` visible instead of peeling it (from_none comparisons: `Some(None)` is not `None`)
+    pub structural: bool,
 }
 
 pub trait Peel {
@@ -65,7 +78,12 @@ pub trait Peel {
 macro_rules! peel_debug {
     ($($t:ty),*) => { $(impl Peel for $t { fn peel(&self, _: &mut Seen) -> String { format!("{:?}", self) } })* };
 }
-peel_debug!(bool, u8, i64, String, char, StructRecv, EnumRecv);
+peel_debug!(bool, u8, i64, String, char, StructRecv, EnumRecv, NoneRecv);
+impl Peel for Flag {
+    fn peel(&self, _: &mut Seen) -> String {
+        format!("Flag({})", self.is_present())
+    }
+}
 macro_rules! peel_tokens {
     ($($t:ty),*) => { $(impl Peel for $t { fn peel(&self, _: &mut Seen) -> String { tok::canon_of(self) } })* };
 }
@@ -85,6 +103,7 @@ impl Peel for HashMap<String, String> {
 impl<T: Peel> Peel for Option<T> {
     fn peel(&self, s: &mut Seen) -> String {
         match self {
+            Some(t) if s.structural => format!("Some({})", t.peel(s)),
             Some(t) => t.peel(s),
             None => "None".into(),
         }
@@ -163,6 +182,7 @@ pub fn observe<T: FromMeta + Peel>(m: &Meta) -> Observed {
     let mut seen = Seen {
         spans: vec![],
         originals: vec![],
+        structural: false,
     };
     let out = match T::from_meta(m) {
         Ok(v) => Out::Ok(v.peel(&mut seen)),
@@ -175,6 +195,7 @@ pub fn observe_none<T: FromMeta + Peel>() -> Option<String> {
     let mut seen = Seen {
         spans: vec![],
         originals: vec![],
+        structural: true,
     };
     T::from_none().map(|v| v.peel(&mut seen))
 }
@@ -493,7 +514,7 @@ pub fn run(args: &Args) -> i32 {
 fn outcome(min: u64) -> Outcome {
     Outcome {
         level: "exploration",
-        rule: "1430 wrapper types (10 wrappers and all 100 two-level compositions over 13 inner targets incl. a derived struct and enum receiver and a string map) x random meta items (word, list, name-value literal of every kind, name-value expression); each observed outcome (peeled value or (Display, span) leaf sequence) is compared with a compositional model applied to the inner type's outcome on the same item; SpannedValue range, WithOriginal copy and from_none are checked too. Distinct = (wrapper type, item form, inner accepted?).".into(),
+        rule: "1665 wrapper types (10 wrappers and all 100 two-level compositions over 15 inner targets incl. derived struct and enum receivers, a receiver declaring from_none, Flag and a string map) x random meta items (word, list, name-value literal of every kind, name-value expression); each observed outcome (peeled value or (Display, span) leaf sequence) is compared with a compositional model applied to the inner type's outcome on the same item; SpannedValue range, WithOriginal copy and from_none (compared structurally: Some(None) is not None) are checked too. Distinct = (wrapper type, item form, inner accepted?).".into(),
         assumptions: vec!["the inner type's own outcome on the same item is the reference (differential)".into(), "SpannedValue on an empty list has no tokens to point at and is exempt".into()],
         min_nontrivial: min,
         exhaustive: None,
